@@ -98,13 +98,13 @@ def body(draw, me, names, depth, ntmpl, allow_block=True, has_kill_time=False):
 
 
 @st.composite
-def spec_fields(draw, restartable):
+def spec_fields(draw, restartable, pd=2):
     f = {"on_exit": draw(st.integers(0, 3))}
-    if draw(st.integers(0, 4)) == 0:
+    if draw(st.integers(0, 9)) < pd:
         f["daemon"] = True
     if draw(st.integers(0, 3)) == 0:
         f["kill_time"] = draw(FINE) * draw(st.sampled_from([1, 2, 4]))
-    if restartable and draw(st.integers(0, 2)) == 0:
+    if restartable and draw(st.integers(0, 1)) == 0:
         f["auto_restart"] = True
     return f
 
@@ -114,9 +114,10 @@ def c11_programs(draw):
     nw = draw(st.integers(1, 4))
     names = ["w%d" % i for i in range(nw)] + ["c0"]
     ntmpl = draw(st.integers(0, 2))
+    pd = draw(st.sampled_from([2, 2, 6]))      # some programs are mostly made of daemons
     templates = []
     for _ in range(ntmpl):
-        t = draw(spec_fields(True))
+        t = draw(spec_fields(True, pd))
         has_kt = "kill_time" in t
         # the creator applies daemon / kill time / auto-restart to the child AFTER its creation, when the child has already run one slice:
         # a child that ends at once receives them when it is terminated (they are then ignored); most children start with a sleep
@@ -127,7 +128,7 @@ def c11_programs(draw):
     actors = []
     for i in range(nw):
         host = "h%d" % draw(st.integers(0, 2))
-        a = draw(spec_fields(host != "h0"))
+        a = draw(spec_fields(host != "h0", pd))
         a.update(name="w%d" % i, host=host, ops=draw(body("w%d" % i, names, 0, ntmpl, has_kill_time="kill_time" in a)))
         actors.append(a)
     # the controller: never a daemon, lives on h0 (never turned off), nobody is told to kill it (kill_all may)
@@ -165,6 +166,12 @@ def c11_programs(draw):
     for p in pending:
         if draw(st.integers(0, 3)) > 0:
             ops += [["sleep", draw(FINE)], p]
+    if draw(st.integers(0, 4)) == 0:
+        # several reboots of one host: incarnations beyond the second one
+        h = "h%d" % draw(st.integers(1, 2))
+        for _ in range(draw(st.integers(2, 3))):
+            ops += [["sleep", draw(FINE)], ["turn_off", "host", h], ["sleep", draw(FINE)], ["turn_on", "host", h]]
+        ops.append(["sleep", draw(FINE)])
     actors.append({"name": "c0", "host": "h0", "ops": ops, "on_exit": draw(st.integers(0, 2))})
     if draw(st.integers(0, 3)) == 0:      # a second actor acting on the others, so that orders at one date vary
         o2 = []
@@ -304,7 +311,7 @@ def check_c11(case, log, oc, labels):
                 # incarnation inherits what the original had registered when it terminated (what ran then: checked on its own)
                 first = [i for i in insts if i.name == name][0]
                 inst.inherited = list(reversed([cb for cb, _, _, _ in first.exits]))
-                labels.add("restarted")
+                labels.add("restarted" if inst.k == 1 else "restarted-twice-or-more")
             if spec.get("auto_restart"):
                 boot.setdefault(l["host"], set()).add(name)
             kt = spec.get("kill_time", -1)
